@@ -55,7 +55,7 @@ pub const SHAPES: &[(&str, &str)] = &[
     ("let-else", "fn $A() { let Some(ref mut $B) = $C else { return; }; let (Ok(mut $D) | Err(mut $D)) = $E(&mut *$B, 'x') else { panic!(\"{}\", 1) }; let $F: &'static mut [u8] = &mut [] else { loop {} }; }\n"),
     ("let-chains", "fn $A() { if let Some(ref mut $B) = $C && let Ok(mut $D) = $E(&$B) && $D > 1 && let [$F, ..] = *$D { $F } else if let Some($B) | None = $C && true {} while let Some($D) = $E.next() && !$D.is_empty() {} }\n"),
     ("labels", "fn $A() { '$B: loop { '$C: while let Some(mut $D) = $E.pop() { if $D { continue '$B; } else { break '$C; } } let $F = '$D: { if true { break '$D 1; } 2 }; '$E: for &mut ref mut x in y { break '$E; } break '$B $F; } }\n"),
-    ("closures", "fn $A() { let $B = for<'a, 'b> |$C: &'a u8, mut $D: &'b mut u8| -> &'a u8 { *$D = 1; $C }; let $E = async move |ref mut $C, &(mut $D, _), #[$F] $T: u8| -> u8 { $T }; let $U = static move || { yield 1; }; let z = move |mut $C| $C; }\n"),
+    ("closures", "fn $A() { let $B = for<'a, 'b> |$C: &'a u8, mut $D: &'b mut u8| -> &'a u8 { *$D = 1; $C }; let $E = async move |ref mut $C, &(mut $D, _), #[$F] $T: u8| -> u8 { $T }; let $U = static move || { yield 1; }; let z = move |mut $C| $C; let w = for<'a> move |$D: &'a u8| -> &'a u8 { $D }; let v = for<'a> async move |$D: &'a u8| -> &'a u8 { $D }; }\n"),
     ("closure-chain", "fn $A() { $B.iter_mut().filter(|&&mut ref $C| $C.$D()).map(async move |mut $C: &mut u8| -> u8 { *$C += 1; *$C }).for_each(move |ref mut $E| drop::<&mut u8>($E)); }\n"),
     ("gen-blocks", "fn $A() { let $B = gen { yield 1; }; let $C = async gen move { yield $B; }; let $D = gen move { yield &mut $C; }; let $E = unsafe { &mut *$D }; let $F = const { 1 + 1 }; let g = async move { $E.await? }; }\n"),
     ("raw-borrows", "fn $A() { let $B = &raw const $C.$D; let $E = &raw mut (*$F).0; let a = &mut *$B; let b = &&mut **$E; let c = *&raw const $C; let d = -*$B as *const u8 as usize; let e = !$C? == &mut $D; }\n"),
@@ -64,6 +64,7 @@ pub const SHAPES: &[(&str, &str)] = &[
     ("stmt-attrs", "fn $A() { #[$B] let mut $C = 1; #[cfg(unix)] #[$D] { $C += 1; } #[$E] unsafe { $F() }; #[$B] $C.$D(); #[$E] if $C {} let x = #[$B] [1, #[$D] 2]; let y = (#[$E] 1,); #[$B] return; }\n"),
     ("casts-ranges", "fn $A() { let $B = $C as *const $T as *mut $U<'static> as usize..=$D as usize; let $E = ..=$F; let a = &mut $B[..]; let b = <$T as $U<'_>>::$D::<{ 1 }>(); let c = <&mut [u8]>::$E(&mut *a, ..); let d = (1,); let e = ((),); let f = (($D,),); }\n"),
     ("jumps", "fn $A() -> u8 { loop { if $B { break; } if $C { continue; } if $D { return 1; } if $E { break 2 } if $F { return 3 } match x { _ => return 4, } } }\nfn g() { return; }\nfn h() { return }\n"),
+    ("loop-semis", "fn $A() { loop {}; $B(); while $C {}; '$D: for $E in $F {}; $B(); '$E: loop { break '$E; }; if $C {}; match $C {}; unsafe {}; let x = loop { break 1; }; $B(); loop {}; }\nfn g() { while let Some($D) = $E.pop() {}; }\n"),
     ("tuples-units", "fn $A($B: (u8,), $C: ((),), $D: (($T,), u8)) -> (u8,) { let ($E,) = $B; let (($F,),): (($T,),) = (($D.0.0,),); $U(($E,)); $U(()); $U((1, 2)); ((($E))); ($E,) }\n"),
     ("types-misc", "fn $A($B: &'static mut dyn for<'a> Fn(&'a u8) -> &'a u8, $C: *const [u8; 2], $D: *mut dyn $T, $E: for<'a, 'b> unsafe extern \"C\" fn(&'a u8, &'b mut u8) -> &'a u8, $F: impl ?Sized + for<'a> $U<'a>, g: [(); 0], h: !, i: <$T as $U<'static>>::X, j: &'_ mut (dyn $T + '_)) {}\n"),
     ("dyn-star", "fn $A($B: dyn* $T + Send, $C: &dyn* $U<'static>) -> dyn* $T { $B as dyn* $T }\n"),
@@ -74,6 +75,57 @@ pub const SHAPES: &[(&str, &str)] = &[
     ("macro-calls-items", "$A! { pub(crate) unsafe fn $B<'a>(mut x: &'a mut u8) {} }\n$C!(pub(in crate::$D) struct $E<'a>(&'a mut u8););\nimpl $F { $T!(unsafe fn $U(&mut self)); }\n"),
     ("macro-calls-exprs", "fn $A() { let $B = $C!(&mut *$D, ref_mut = &raw const $E, 'x', move |mut $F: &'static mut u8| -> u8 { *$F }); $T!(unsafe { $U(&mut $B) }, async move { $B.await? }); $C!($D => $E, $F); let y = r#try!($D.$E()); }\n"),
 ];
+
+/// shapes built as products of modifiers (every subset, in the one order the grammar allows)
+pub fn product_shapes() -> Vec<(String, String)> {
+    let mut v: Vec<(String, String)> = vec![];
+    // function qualifiers: default? const? async? unsafe? extern "C"?   (32 subsets, four per shape)
+    let quals = ["default", "const", "async", "unsafe", "extern \"C\""];
+    let mut fns: Vec<String> = vec![];
+    for m in 0..32u32 {
+        let q: Vec<&str> = quals.iter().enumerate().filter(|(i, _)| m & (1 << i) != 0).map(|(_, q)| *q).collect();
+        let vis = ["", "pub ", "pub(crate) ", "pub(in crate::$A) "][(m % 4) as usize];
+        fns.push(format!("{}{}{}fn $B{}<'a, $T: ?Sized + 'a>(&'a mut self, mut $C: &'a mut $T, $D: u8) -> &'a mut $T where $T: Clone + 'a {{ $C }}", vis, q.join(" "), if q.is_empty() { "" } else { " " }, m));
+    }
+    for (k, chunk) in fns.chunks(4).enumerate() {
+        v.push((format!("fnq{}", k), format!("impl $U {{ {} }}\n", chunk.join(" "))));
+    }
+    // closure modifiers: for<'a>? const? static? async? move?   (the parser of the pinned toolchain decides which it takes)
+    let cq = ["for<'a>", "const", "static", "async", "move"];
+    let mut cls: Vec<String> = vec![];
+    for m in 0..32u32 {
+        let q: Vec<&str> = cq.iter().enumerate().filter(|(i, _)| m & (1 << i) != 0).map(|(_, q)| *q).collect();
+        // one closure per function so that a combination the parser refuses costs only its own shape
+        cls.push(format!("fn $A{}() {{ let $B = {}{}|mut $C: &u8, ref mut $D, &(ref $E, _)| -> u8 {{ *$C }}; }}\n", m, q.join(" "), if q.is_empty() { "" } else { " " }));
+    }
+    for (m, c) in cls.iter().enumerate() {
+        if m & 2 != 0 && m & 8 != 0 {
+            continue; // `const async` closures: refused by the parser of the pinned toolchain
+        }
+        v.push((format!("clq{}", m), c.clone()));
+    }
+    // visibilities x item kinds
+    let viss = [("pub", "pub"), ("crate", "pub(crate)"), ("super", "pub(super)"), ("self", "pub(self)"), ("in-path", "pub(in crate::$A::$B)"), ("in-super", "pub(in super::super)"), ("in-self", "pub(in self)")];
+    for (n, vis) in viss {
+        v.push((format!("vis-{}", n), format!("{v} fn $C() {{}}\n{v} unsafe fn $D() {{}}\n{v} struct $T {{ {v} $E: u8, $F: u8 }}\n{v} struct $U({v} u8, u8);\n{v} enum E1 {{ A }}\n{v} union U1 {{ {v} a: u8 }}\n{v} trait T1 {{}}\n{v} unsafe trait T2 {{}}\n{v} type A1 = u8;\n{v} const C1: u8 = 0;\n{v} static S1: u8 = 0;\n{v} static mut S2: u8 = 0;\n{v} mod m1 {{}}\n{v} mod m2;\n{v} use a1::b1;\n{v} extern crate c1;\n{v} macro mac1() {{}}\nimpl $T {{ {v} fn f(&self) {{}} {v} const C: u8 = 0; {v} type X = u8; {v} unsafe fn g() {{}} }}\n", v = vis)));
+    }
+    // binding modes x positions
+    let binds = ["x", "ref x", "mut x", "ref mut x", "x @ _", "ref x @ _", "mut x @ 1..=2", "ref mut x @ Some(_)", "&x", "&mut x", "&mut ref mut x", "box x"];
+    for (k, b) in binds.iter().enumerate() {
+        v.push((format!("bind{}", k), format!("fn $A({b}: $T, ({b}, _): ($T, u8)) {{ let {b} = $B; let ({b}, $C) = $D else {{ return; }}; if let Some({b}) = $E {{}} while let [{b}, ..] = $F {{}} for {b} in $B {{}} match $C {{ {b} => {{}} Some({b}) | Ok({b}) if true => {{}} $T {{ f: {b}, .. }} => {{}} }} let c = |{b}, ({b}, _): ($T, u8)| (); }}\n", b = b)));
+    }
+    // impl / trait headers
+    let heads = ["impl", "unsafe impl", "default impl", "default unsafe impl", "impl const", "unsafe impl const"];
+    for (k, h) in heads.iter().enumerate() {
+        let (kw, c) = if h.ends_with("const") { (h.trim_end_matches(" const"), "const ") } else { (*h, "") };
+        v.push((format!("implh{}", k), format!("{kw}<'a, $T: ?Sized + 'a, const N: usize> {c}$A<'a, $T> for $B<'a, $T, N> where $T: $C<'a> + 'a {{}}\n{kw}<$T> {c}!$D for $E<$T> {{}}\n{kw}<$T> {c}$F<$T> {{}}\n", kw = kw, c = c)));
+    }
+    let theads = ["trait", "unsafe trait", "auto trait", "unsafe auto trait", "pub(crate) unsafe auto trait", "pub(in crate::$F) unsafe trait"];
+    for (k, h) in theads.iter().enumerate() {
+        v.push((format!("traith{}", k), format!("{h} $A<'a, $T: 'a>: $B<'a> + ?Sized + 'a where Self: 'a, $T: $C {{}}\n{h} $D {{}}\n", h = h)));
+    }
+    v
+}
 
 fn names(long: bool) -> Vec<(&'static str, &'static str)> {
     if long {
@@ -155,7 +207,8 @@ pub fn contexts(body: &str) -> Vec<(&'static str, String)> {
 pub fn universe() -> Vec<Case> {
     let opts = gen_options();
     let mut v = vec![];
-    for (name, src) in SHAPES {
+    let all_shapes: Vec<(String, String)> = SHAPES.iter().map(|(n, s)| (n.to_string(), s.to_string())).chain(product_shapes()).collect();
+    for (name, src) in &all_shapes {
         for long in [false, true] {
             let body = instantiate(src, long);
             for (cname, text) in contexts(&body) {
